@@ -215,7 +215,19 @@ class Site:
     def as_expression(self) -> ast.expr:
         env, rename, pre = self.bind()
         if pre:
-            raise CannotInline("arguments need temporaries")
+            # arguments that are not plain names are substituted as they are (analysis only: evaluation counts do not matter)
+            stored = _stored_names(self.callee)
+            for st in pre:
+                nm = st.targets[0].id
+                orig = next((k for k, v in rename.items() if v == nm), nm)
+                if orig in stored:
+                    raise CannotInline("a parameter is assigned in the helper")
+                uses = sum(1 for n in _own_walk(self.callee) if isinstance(n, ast.Name) and n.id == orig and isinstance(n.ctx, ast.Load))
+                if uses > 4:
+                    raise CannotInline("argument expression used many times")
+                rename.pop(orig, None)
+                env[orig] = st.value
+            pre = []
         sub = _Subst(env, rename)
 
         def S(e):
@@ -616,6 +628,21 @@ def _remove_def(repo, f) -> None:
                     return
 
 
+def _pure_expression_helper(repo, g) -> bool:
+    """The helper only computes a value: ifs, returns, local lets; no call into this package, no stores to objects."""
+    names = {f.name for f in repo.functions.values()}
+    for n in _own_walk(g.node):
+        if isinstance(n, (ast.For, ast.While, ast.Try, ast.With, ast.Raise, ast.AugAssign, ast.Delete)):
+            return False
+        if isinstance(n, ast.Call):
+            nm = n.func.attr if isinstance(n.func, ast.Attribute) else getattr(n.func, "id", "")
+            if nm in names or nm in ("append", "add", "remove", "update", "pop", "extend", "clear", "set_update_function"):
+                return False
+        if isinstance(n, (ast.Subscript, ast.Attribute)) and isinstance(n.ctx, (ast.Store, ast.Del)):
+            return False
+    return True
+
+
 _HOISTABLE = (ast.Assign, ast.AnnAssign, ast.AugAssign, ast.Expr, ast.Return, ast.If, ast.For, ast.Assert, ast.Raise)
 
 
@@ -700,6 +727,14 @@ def _inline_in(repo, f, cand: dict, report) -> bool:
                     form = None
                 if form:
                     site = Site(fn, g.node, val, receiver_of(val, g), g.qualname)
+                    if form in ("assign", "return") and _pure_expression_helper(repo, g):
+                        try:
+                            s.value = site.as_expression()
+                            changed = True
+                            report["inlined"].append(f"{g.key} -> {f.key} [expr]")
+                            return [s]
+                        except CannotInline:
+                            pass
                     try:
                         new = site.as_statements(form, s)
                         changed = True
